@@ -368,18 +368,26 @@ def run_retention(case, rec):
             observe(s, vary(k), context=Ctx(k))
             del refs[:]          # (the harness' own bookkeeping must not count)
         gc.collect()
-        m1 = tracemalloc.get_traced_memory()[0]
+        m0 = tracemalloc.get_traced_memory()[0]
         for k in range(done + 200, done + 1200):
+            observe(s, vary(k), context=Ctx(k))
+            del refs[:]
+        gc.collect()
+        m1 = tracemalloc.get_traced_memory()[0]
+        for k in range(done + 1200, done + 2200):
             observe(s, vary(k), context=Ctx(k))
             del refs[:]
         gc.collect()
         m2 = tracemalloc.get_traced_memory()[0]
     finally:
         tracemalloc.stop()
+    # steady growth only (both windows of 1000 requests): bounded caches may still be filling during the first one
+    if m1 - m0 <= 40000:
+        m1 = m2
     rec.counters['retention runs growing by more than 20 kB / 1000 requests (tolerance 40 kB)'] += 1 if m2 - m1 > 20000 else 0
     if m2 - m1 > 40000:
         rec.violation('C13:b:allocated memory grows with the number of requests (%s)' % ('view' if req.startswith('view') else req), case,
-                      expected='no growth over 1000 further requests (tolerance 40 kB)', observed='%d bytes' % (m2 - m1))
+                      expected='no steady growth over two windows of 1000 further requests (tolerance 40 kB each)', observed='%d bytes in the second window' % (m2 - m1))
     last = measures[1110]
     what = 'view' if req.startswith('view') else req
     if last['ctx']:
@@ -451,19 +459,27 @@ def run_http_retention(case, rec):
             for k in range(200):
                 bad_ = one(k)
             gc.collect()
-            m1 = tracemalloc.get_traced_memory()[0]
+            m0 = tracemalloc.get_traced_memory()[0]
             for k in range(200, 1200):
+                bad_ = one(k) or bad_
+                rec.transitions += 1
+            gc.collect()
+            m1 = tracemalloc.get_traced_memory()[0]
+            for k in range(1200, 2200):
                 bad_ = one(k) or bad_
                 rec.transitions += 1
             gc.collect()
             m2 = tracemalloc.get_traced_memory()[0]
         finally:
             tracemalloc.stop()
+        # steady growth only: bounded caches of the frameworks may still be filling during the first window; a leak grows in both
+        if m1 - m0 <= 40000:
+            m1 = m2
         if bad_:
             rec.violation('C13:b:the %s integration raised while serving %s' % (kind, req), case, expected='a reply', observed=bad_)
         elif m2 - m1 > 40000:
             rec.violation('C13:b:memory allocated by the %s integration grows with the number of requests (ever new error codes)' % kind, case,
-                          expected='no growth over 1000 further requests (tolerance 40 kB)', observed='%d bytes' % (m2 - m1))
+                          expected='no steady growth over two windows of 1000 further requests (tolerance 40 kB each)', observed='%d bytes in the second window' % (m2 - m1))
         rec.counters['http runs growing by more than 20 kB / 1000 requests (tolerance 40 kB)'] += 1 if m2 - m1 > 20000 else 0
         rec.traces += 1
         rec.states += 1
